@@ -12,6 +12,15 @@
 #include "strops.h"
 #include "xfloat.h"
 #include "int.h"
+#include "util.h"
+
+/*
+ * The readers are handed positions and counts decoded from library files, which
+ * may be damaged.  Their bounds checks therefore must not disappear with the
+ * assertions (which are off unless -Wcheck is given).
+ */
+#define bufMust(c)	do { if (!(c)) bug("Buffer access out of range (damaged file?): %s", #c); } while (0)
+
 
 struct buffer {
 	Length		pos;		/* amount used == next position */
@@ -88,13 +97,14 @@ bufPosition(Buffer s)
 void
 bufSetPosition(Buffer s, Length n)
 {
-	assert(n <= s->argc);
+	bufMust(n <= s->argc);
 	s->pos = n;
 }
 
 void
 bufSkip(Buffer s, Length n)
 {
+	bufMust(n <= s->argc - s->pos);	/* not pos + n <= argc: n may come from a damaged file and wrap */
 	bufSetPosition(s, bufPosition(s) + n);
 }
 
@@ -134,7 +144,7 @@ String
 bufGetn(Buffer b, Length n)
 {
 	UByte	*s;
-	assert(b->pos + n <= b->argc);
+	bufMust(n <= b->argc - b->pos);	/* not pos + n <= argc: n may come from a damaged file and wrap */
 	s = b->argv + b->pos;
 	bufSkip(b, n);
 	return (String) s;
@@ -144,7 +154,11 @@ String
 bufGets(Buffer b)
 {
 	UByte	*s = b->argv + b->pos;
-	int	cc = strLength((String) s);
+	int	cc;
+
+	/* The string must end inside the buffer. */
+	bufMust(memchr(s, char0, b->argc - b->pos) != 0);
+	cc = strLength((String) s);
 	bufSkip(b, cc + 1);
 	return (String) s;
 }
@@ -252,14 +266,14 @@ bufStart(Buffer b)
 UByte
 bufGet1(Buffer b)
 {
-	assert(b->pos < b->argc);
+	bufMust(b->pos < b->argc);
 	return b->argv[b->pos++];
 }
 
 void
 bufBack1(Buffer b)
 {
-	assert(b->pos > 0);
+	bufMust(b->pos > 0);
 	b->pos--;
 }
 
@@ -467,6 +481,7 @@ bufRdChars(Buffer buf, int cc)
 {
 	String	s;
 
+	bufMust(cc >= 0);		/* a negative count comes from a damaged file */
 	s = strAlloc(cc);
 	bufGetChars(buf, s, cc);
 
@@ -495,6 +510,7 @@ bufRdString(Buffer buf)
 	int	cc;
 
 	cc = bufGetSInt(buf);
+	bufMust(cc >= 0);		/* a negative count comes from a damaged file */
 	s = strAlloc(cc);
 	bufGetChars(buf, s, cc);
 
@@ -533,6 +549,7 @@ bufRdBuffer(Buffer buf)
 	int	cc;
 
 	cc = bufGetSInt(buf);
+	bufMust(cc >= 0);		/* a negative count comes from a damaged file */
 	s = strAlloc(cc);
 	bufGetChars(buf, s, cc);
 
